@@ -28,13 +28,15 @@ impl CircuitBuilder {
 #[derive(Clone, Copy)] pub struct Fv(pub u64);
 #[verifier::external_body] pub fn fv_from_usize(n: usize) -> Fv { unimplemented!() }
 /// the in-circuit challenger: every operation may fail only where the real one returns a Result
-pub struct CircuitChallenger { pub _p: () }
+/// pow_log: the grinding checks made so far, as (required bits, witness) in order (ghost; only check_pow_witness extends it)
+pub struct CircuitChallenger { pub pow_log: Ghost<Seq<(usize, Target)>> }
 impl CircuitChallenger {
-    #[verifier::external_body] pub fn sample_ext(&mut self, c: &mut CircuitBuilder) -> ExprId { unimplemented!() }
-    #[verifier::external_body] pub fn observe_slice(&mut self, c: &mut CircuitBuilder, v: &Vec<Target>) { unimplemented!() }
-    #[verifier::external_body] pub fn observe_ext_slice(&mut self, c: &mut CircuitBuilder, v: &Vec<Target>) { unimplemented!() }
-    #[verifier::external_body] pub fn observe(&mut self, c: &mut CircuitBuilder, v: Target) { unimplemented!() }
-    #[verifier::external_body] pub fn check_pow_witness(&mut self, c: &mut CircuitBuilder, bits: usize, w: Target) -> Result<(), CircuitBuilderError> { unimplemented!() }
+    #[verifier::external_body] pub fn sample_ext(&mut self, c: &mut CircuitBuilder) -> ExprId ensures final(self).pow_log@ == old(self).pow_log@ { unimplemented!() }
+    #[verifier::external_body] pub fn observe_slice(&mut self, c: &mut CircuitBuilder, v: &Vec<Target>) ensures final(self).pow_log@ == old(self).pow_log@ { unimplemented!() }
+    #[verifier::external_body] pub fn observe_ext_slice(&mut self, c: &mut CircuitBuilder, v: &Vec<Target>) ensures final(self).pow_log@ == old(self).pow_log@ { unimplemented!() }
+    #[verifier::external_body] pub fn observe(&mut self, c: &mut CircuitBuilder, v: Target) ensures final(self).pow_log@ == old(self).pow_log@ { unimplemented!() }
+    #[verifier::external_body] pub fn check_pow_witness(&mut self, c: &mut CircuitBuilder, bits: usize, w: Target) -> Result<(), CircuitBuilderError>
+        ensures final(self).pow_log@ == old(self).pow_log@.push((bits, w)) { unimplemented!() }
 }
 pub struct Commit { pub _p: () }
 impl Commit { #[verifier::external_body] pub fn to_observation_targets(&self) -> Vec<Target> { unimplemented!() } }
@@ -42,6 +44,11 @@ pub struct PowWitness { pub witness: Target }
 pub struct FriProofTargets { pub commit_phase_commits: Vec<Commit>, pub commit_pow_witnesses: Vec<PowWitness>, pub final_poly: Vec<Target>, pub log_arities: Vec<usize>, pub pow_witness: PowWitness }
 pub struct HidingFriProofTargets { pub inner_proof: FriProofTargets }
 pub struct FriVerifierParams { pub commit_pow_bits: usize, pub query_pow_bits: usize }
+/// the grinding checks the native verifier makes: every commit-phase witness against commit_proof_of_work_bits (in phase order), then the query witness against query_proof_of_work_bits
+pub open spec fn commit_pows(fp: &FriProofTargets, bits: usize, n: int) -> Seq<(usize, Target)> { Seq::new(n as nat, |i: int| (bits, fp.commit_pow_witnesses@[i].witness)) }
+pub open spec fn native_pows(fp: &FriProofTargets, params: &FriVerifierParams) -> Seq<(usize, Target)> {
+    commit_pows(fp, params.commit_pow_bits, fp.commit_pow_witnesses@.len() as int).push((params.query_pow_bits, fp.pow_witness.witness))
+}
 pub struct OpenedStub { pub _p: () }
 pub struct EvalPoints { pub _p: () }
 impl EvalPoints { #[verifier::external_body] pub fn new() -> Self { unimplemented!() } }
@@ -115,9 +122,15 @@ def challenges_fn(u, container, qual, hiding):
     fp = 'proof_targets.inner_proof' if hiding else 'fri_proof'
     f.ensures('one_pow_witness_per_commit_phase', f'ret is Ok ==> {fp}.commit_pow_witnesses@.len() == {fp}.commit_phase_commits@.len()')
     f.ensures('alpha_and_one_beta_per_commit_phase', f'ret matches Ok(c) ==> c@.len() == 1 + {fp}.commit_phase_commits@.len()')
+    # C07 (round 17): WHICH parameter each grinding witness is checked against -- the commit-phase witnesses against commit_pow_bits, the query witness against query_pow_bits, in the native order
+    f.ensures('each_grinding_witness_is_checked_against_its_own_parameter', f'ret is Ok ==> final(challenger).pow_log@ =~= old(challenger).pow_log@ + native_pows(&{fp}, params)')
     zl = re.search(r'for (z\d+_) in 0\.\.(n_z\d+_)', f.body)
     if zl:
-        f.loop(zl.group(0), invariants=[('one_beta_per_phase_so_far', f'betas@.len() == {zl.group(1)} && {zl.group(2)} == fri_proof.commit_phase_commits@.len()')])
+        f.loop(zl.group(0), invariants=[('one_beta_per_phase_so_far', f'betas@.len() == {zl.group(1)} && {zl.group(2)} == fri_proof.commit_phase_commits@.len()'),
+                                        ('grinding_checks_so_far', f'challenger.pow_log@ =~= old(challenger).pow_log@ + commit_pows(fri_proof, params.commit_pow_bits, {zl.group(1)} as int)')])
+    if 'for la_ in 0..fri_proof.log_arities.len()' in f.body:
+        f.loop('for la_ in 0..fri_proof.log_arities.len()', invariants=[
+            ('observing_the_schedule_grinds_nothing', 'challenger.pow_log@ =~= old(challenger).pow_log@ + commit_pows(fri_proof, params.commit_pow_bits, fri_proof.commit_pow_witnesses@.len() as int)')])
     return f
 
 
